@@ -296,7 +296,10 @@ static void op_dvector(vh_ctx *c)
     case 8: { OP("D%zu.get(OOR)", k); g_oor_kind = 1; g_oor_slot = k; g_oor_i = s->n + (size_t)vh_int(c, 0, 2); run_oor(); break; }
     case 9: { OP("D%zu.removeAt(OOR)", k); g_oor_kind = 12; g_oor_slot = k; g_oor_i = s->n + (size_t)vh_int(c, 0, 2); run_oor(); break; }
     case 10: { double v = fresh(); OP("D%zu.setAll", k); DVectorSet(DV[k], v); for (i = 0; i < s->n; i++) s->v[i] = v; OBSOP("dvector_setall"); break; }
-    case 11: { size_t a, b; OP("D%zu.sort", k); DVectorSort(DV[k]); for (a = 0; a < s->n; a++) for (b = a + 1; b < s->n; b++) if (s->v[b] < s->v[a]) { double t = s->v[a]; s->v[a] = s->v[b]; s->v[b] = t; } OBSOP("dvector_sort"); break; }
+    case 11: { size_t a, b;
+               /* near ties (second build session): distinct values closer than 1e-3, out of order - a sort must order them exactly */
+               if (s->n >= 2 && vh_coin(c, 0.35)) { double base = fresh(); size_t pos[MAXN]; vh_perm(c, pos, s->n); for (a = 0; a < s->n; a++) { s->v[a] = base + 1e-4 * (double)pos[a] / (double)s->n; DV[k]->data[a] = s->v[a]; } OBSOP("dvector_sort_near_ties"); }
+               OP("D%zu.sort", k); DVectorSort(DV[k]); for (a = 0; a < s->n; a++) for (b = a + 1; b < s->n; b++) if (s->v[b] < s->v[a]) { double t = s->v[a]; s->v[a] = s->v[b]; s->v[b] = t; } OBSOP("dvector_sort"); break; }
     case 12: { int r; OP("D%zu.hasValue(n=%zu)", k, s->n);      /* documented: 0 = present, 1 = absent; the comparison has a tolerance of 1e-3 */
               if (s->n) { size_t ix = (size_t)vh_int(c, 0, (long)s->n - 1); r = DVectorHasValue(DV[k], s->v[ix]); if (r != 0) { vh_fail(c, "DVectorHasValue|present-value-reported-absent", "element %zu = %.17g of a vector of %zu: returned %d", ix, s->v[ix], s->n, r); g_bad = 1; } }
               { double x = (s->n ? s->v[vh_int(c, 0, (long)s->n - 1)] : 0.0) + 0.5; int nearv = 0; for (i = 0; i < s->n; i++) if (fabs(s->v[i] - x) <= 2e-3) nearv = 1;
